@@ -304,6 +304,7 @@ func checkAssemblerOrder(c *core.Ctx, pkg, rp string) {
 	}
 
 	if pkg == "reassembly" {
+		checkCoherentTriples(c, c.Rule(rp+".14", "T", "a connection is returned together with its own two halves"))
 		checkOverlapAlways(c, c.Rule(rp+".13", "T", "the packet being handled is compared with the out-of-order queue on every path (only an empty queue may skip it)"), pkg)
 		r10 := c.Rule(rp+".10", "T", "a list built together with the byte count of its elements is never emptied without zeroing the count")
 		checkCoupledAccumulators(c, r10, pkg)
@@ -1743,5 +1744,68 @@ func checkOverlapAlways(c *core.Ctx, r *core.Rule, pkg string) {
 	}
 	if n < 1 {
 		r.Missing(pkg+"/checkOverlap callers", "none found")
+	}
+}
+
+// checkCoherentTriples (R9.14 = R11.12 = R12.7): functions of the reassembly
+// package that return a connection together with its two half-connections
+// return, at every return, three results of one and the same call (or three
+// nils): a connection paired with the halves of another connection object —
+// for instance of the object that was just given back to the free list —
+// delivers a packet to a stream that is not registered in the pool.
+func checkCoherentTriples(c *core.Ctx, r *core.Rule) {
+	p := c.P
+	n := 0
+	for _, fn := range pkgFunctions(p, "reassembly") {
+		res := fn.Signature.Results()
+		if res.Len() != 3 || !core.NamedIs(res.At(0).Type(), "connection") || !core.NamedIs(res.At(1).Type(), "halfconnection") || !core.NamedIs(res.At(2).Type(), "halfconnection") {
+			continue
+		}
+		for i, ret := range core.Returns(fn) {
+			var tuples []ssa.Value
+			nils, other := 0, 0
+			for k := 0; k < 3; k++ {
+				v := core.RetOperand(ret, k)
+				switch x := v.(type) {
+				case *ssa.Extract:
+					tuples = append(tuples, x.Tuple)
+				case *ssa.Const:
+					nils++
+				default:
+					other++
+				}
+			}
+			key := fmt.Sprintf("%s/return#%d/coherent", core.FnKey(fn), i+1)
+			switch {
+			case len(tuples) == 3 && tuples[0] == tuples[1] && tuples[1] == tuples[2]:
+				n++
+				r.OK(key, p.InstrPos(ret), "connection and halves are results of one call")
+			case nils == 3:
+				n++
+				r.OK(key, p.InstrPos(ret), "all nil")
+			case len(tuples) >= 2 && (tuples[0] != tuples[len(tuples)-1] || (len(tuples) == 3 && tuples[0] != tuples[1])):
+				n++
+				r.Violate(key, p.InstrPos(ret), "the connection returned here comes from one lookup and a half-connection returned with it from another: the caller then works on the halves of a connection object that is not the one registered in the pool (after a lost creation race: the object that was just pushed on the free list), so its stream receives packets but never a completion, and the registered connection never sees them", nil)
+			default:
+				// built in place (newConnection): the halves are addresses of fields of the returned object
+				n++
+				okAddr := true
+				cv := core.RetOperand(ret, 0)
+				for k := 1; k < 3; k++ {
+					v := core.RetOperand(ret, k)
+					if fa, ok := v.(*ssa.FieldAddr); !ok || fa.X != cv {
+						okAddr = false
+					}
+				}
+				if okAddr {
+					r.OK(key, p.InstrPos(ret), "halves are fields of the returned connection")
+				} else {
+					r.Undecided(key, p.InstrPos(ret), "results not recognised as one call's results or fields of the returned connection")
+				}
+			}
+		}
+	}
+	if n < 4 {
+		r.Missing("reassembly/connection triples", fmt.Sprintf("only %d returns found", n))
 	}
 }
